@@ -498,13 +498,15 @@ struct Runner
       pm->set_do_symmetry_shift_z(shift_z);
       return pm;
     };
-    shared_ptr<ProjMatrixByBinUsingRayTracing> pm = make_matrix(f, rng.coin(), rng.coin());
+    const bool swap_s = rng.coin(), shift_z = rng.coin();
+    shared_ptr<ProjMatrixByBinUsingRayTracing> pm = make_matrix(f, swap_s, shift_z);
     shared_ptr<ForwardProjectorByBin> fwd(new ForwardProjectorByBinUsingProjMatrixByBin(pm));
     shared_ptr<const DiscretisedDensity<3, float>> mu_c(mu);
     c.norm.reset(new BinNormalisationFromAttenuationImage(mu_c, fwd));
-    // the class must be set up before the projector's symmetries exist; routes are filled in by set_up_case
-    // independent rows: a second matrix without any symmetries and without cache
-    shared_ptr<ProjMatrixByBinUsingRayTracing> pm0 = make_matrix(0, false, false);
+    // (the class must be set up before the projector's symmetries exist: routes are filled in by run_case)
+    // explicit rows: a second matrix object with the same settings (that rows do not depend on the symmetry settings is
+    // property C03, not this one), cache off; the line integrals are summed here, not by a projector
+    shared_ptr<ProjMatrixByBinUsingRayTracing> pm0 = make_matrix(f, swap_s, shift_z);
     pm0->enable_cache(false);
     pm0->set_up(g.pdi, mu);
     const float vx = mu->get_voxel_size().x();
@@ -1115,6 +1117,49 @@ main(int argc, char** argv)
         R.add_chain(R.add_chain(tab, fpd), t);
         for (std::size_t k = 0; k < R.cases.size(); ++k)
           R.run_case(static_cast<int>(k));
+        // the set-up state is checked on use (BinNormalisation::check)
+        {
+          auto try_use = [&](BinNormalisation& n, const shared_ptr<ProjDataInfo>& data_pdi) {
+            PD dd(R.g.exam, data_pdi);
+            dd.fill(1.F);
+            shared_ptr<DataSymmetriesForViewSegmentNumbers> triv(new TrivialDataSymmetriesForBins(data_pdi));
+            try
+              {
+                RelatedViewgrams<float> rv = dd.get_related_viewgrams(ViewSegmentNumbers(0, 0), triv, false, 0);
+                n.undo(rv);
+                n.apply(rv);
+                return true;
+              }
+            catch (...)
+              {
+                return false;
+              }
+          };
+          shared_ptr<PD> tb = R.random_positive_pd(big, 0.5F, 2.F);
+          TableNorm fresh(tb), on_big(tb), on_small(tb);
+          on_big.set_up(R.g.exam, big);
+          on_small.set_up(R.g.exam, pdi);
+          struct U
+          {
+            BinNormalisation* n;
+            shared_ptr<ProjDataInfo> setup, data;
+            bool expect_ok;
+          } uses[] = { { &fresh, shared_ptr<ProjDataInfo>(), big, false },
+                       { &on_big, big, big, true },
+                       { &on_big, big, pdi, true },     // data with fewer segments than set up for
+                       { &on_small, pdi, big, false },  // data with more segments than set up for
+                       { &on_small, pdi, pdi, true } };
+          for (auto& u : uses)
+            {
+              const bool okk = try_use(*u.n, u.data);
+              const bool ge = u.setup ? (*u.setup >= *u.data) : true;
+              op(std::string("use ") + (u.setup ? "1" : "0") + " " + (ge ? "1" : "0"), okk ? "ok" : "err");
+              ++g_checks;
+              if (okk != u.expect_ok)
+                oracle_fail(std::string("use of a normalisation object ") + (u.setup ? "set up for another geometry" : "that was never set up")
+                            + (okk ? " was accepted" : " was refused"));
+            }
+        }
         fpd_setup_case(R, pdi, true, false); // fewer segments than the data
         fpd_setup_case(R, big, true, true);
 
